@@ -25,41 +25,7 @@ impl<const BITS: usize, const LIMBS: usize> Uint<BITS, LIMBS> {
 //@ import core ZERO
 }
 
-// Euclid's function as the specification of gcd
-pub open spec fn sgcd(a: nat, b: nat) -> nat decreases b { if b == 0 { a } else { sgcd(b, a % b) } }
-
-// ---- ASSUMED (label A): the Lehmer update matrix (src/algorithms/gcd/matrix.rs) ----
-// `from(a, b)` for a >= b returns either the identity or a matrix mapping (a, b) to (c, d) with c >= d, d < b and the same gcd,
-// and `apply` evaluates that map exactly (no wrap) on such a pair. This is the last sentence of property C12; the construction
-// (from_u64_prefix / from_u128_prefix, Jebelean's conditions) is not under proof. Kani checks from_u64 only at tiny sizes (c10).
-pub struct LehmerMatrix(pub u64, pub u64, pub u64, pub u64, pub bool);
-pub uninterp spec fn maps(m: LehmerMatrix, a: nat, b: nat) -> (nat, nat);
-pub open spec fn is_identity(m: LehmerMatrix) -> bool { m.0 == 1 && m.1 == 0 && m.2 == 0 && m.3 == 1 && m.4 }
-impl PartialEqSpecImpl for LehmerMatrix {
-    open spec fn obeys_eq_spec() -> bool { true }
-    open spec fn eq_spec(&self, other: &Self) -> bool { *self == *other }
-}
-impl PartialEq for LehmerMatrix {
-    #[verifier::external_body]
-    fn eq(&self, other: &Self) -> (r: bool) { unimplemented!() }
-}
-impl LehmerMatrix {
-    #[verifier::external_body]
-    pub fn IDENTITY() -> (r: Self) ensures is_identity(r), r == LehmerMatrix(1, 0, 0, 1, true) { unimplemented!() }
-    #[verifier::external_body]
-    pub fn from<const BITS: usize, const LIMBS: usize>(a: Uint<BITS, LIMBS>, b: Uint<BITS, LIMBS>) -> (m: Self)
-        requires a.wf(), b.wf(), a.val() >= b.val()
-        ensures !is_identity(m) ==> ({
-            let (c, d) = maps(m, a.val(), b.val());
-            c >= d && d < b.val() && sgcd(c, d) == sgcd(a.val(), b.val())
-        })
-    { unimplemented!() }
-    #[verifier::external_body]
-    pub fn apply<const BITS: usize, const LIMBS: usize>(&self, a: &mut Uint<BITS, LIMBS>, b: &mut Uint<BITS, LIMBS>)
-        requires old(a).wf(), old(b).wf()
-        ensures final(a).wf(), final(b).wf(), (final(a).val(), final(b).val()) == maps(*self, old(a).val(), old(b).val())
-    { unimplemented!() }
-}
+//@ include lib/lehmer.rs
 
 //@ extract src/algorithms/gcd/mod.rs fn gcd consts=IDENTITY cprefix=LehmerMatrix
 pub fn gcd<const BITS: usize, const LIMBS: usize>(
@@ -90,7 +56,15 @@ pub fn gcd<const BITS: usize, const LIMBS: usize>(
                 assert(sgcd(av, bv) == sgcd(bv, av % bv));
             }/*-*/
         } else {
+            /*+*/let ghost a0 = a.val() as int; let ghost b0 = b.val() as int;
+            proof { a.lemma_wf_lt(); }/*-*/
             m.apply(&mut a, &mut b);
+            /*+*/proof {
+                // the mapped pair is an exact later pair of the remainder sequence, below a < 2^BITS: no wrap
+                let (c, d) = maps(m, a0, b0);
+                lemma_small_mod(c as nat, m2(BITS) as nat);
+                lemma_small_mod(d as nat, m2(BITS) as nat);
+            }/*-*/
         }
     }
     /*+*/proof { assert(sgcd(a.val(), 0) == a.val()); }/*-*/
